@@ -11,7 +11,6 @@ ROOT = os.path.dirname(os.path.dirname(os.path.abspath(__file__)))
 
 # why a recorded finding was not repaired by a "fix:" commit (the brief: repair only when small and safe)
 WHY = {
-    "zero-duration-dropped": "same strict comparison as C07 threshold-boundary: > versus >= decides which calls a given -t keeps (doc: \"under the threshold\"); unreachable with the ns clocks on this machine, a maintainers' decision",
     "auto-neg32": "type width of untyped arguments is a documented-format decision (32-bit heuristics in the printer)",
     "autoargs-complex": "needs a new argument class (two SSE registers) in the DWARF -> spec translation",
     "same-dirname-concurrent-clients": "naming policy of `uftrace recv` (one directory per name)",
@@ -24,7 +23,6 @@ WHY = {
     "setjmp-beyond-rstack-max": "array sized by a constant while the option is a run-time value: allocation design",
     "native-symbol-filter": "python and native symbols share one filter namespace in libmcount: a design decision",
     "lost-after-inherited-wrap": "needs a decision what a LOST marker means for frames inherited at fork",
-    "threshold-boundary": "record (>) and replay (>=) disagree on the boundary; which one is documented is undecided",
     "no-libcall-replay-vs-report": "order of the symbol-type test differs between command loops; behavioural choice",
     "raw-dump-ignores-time-filter": "raw dump bypasses the look-ahead reader by design; manual lists the options",
     "filter-below-depth-trigger": "record and replay count depth from different origins under nested -F: semantic choice",
